@@ -842,10 +842,28 @@ def _set_desc(d, path, f):
     return d
 
 
+_REHASH = None
+
+
+def rehash_impl():
+    """does the implementation contain the repair of C16-F7 (fixes_proposed/C16-F7.diff)?  probed at the witness:
+    (f <int>), assign(5): the hash must be that of a freshly built (f 5)"""
+    global _REHASH
+    if _REHASH is None:
+        from synth.syntax.program import Constant, Function, Primitive
+        from synth.syntax.type_system import INT, Arrow
+        f = Primitive("f", Arrow(INT, INT))
+        c = Constant(INT)
+        p = Function(f, [c])
+        c.assign(5)
+        _REHASH = hash(p) == hash(Function(f, [Constant(INT, 5, True)]))
+    return _REHASH
+
+
 def mutate_is_nested(case):
     """decidable classifier of finding C16-F7: some assign/reset targets a constant that lies strictly
-    inside a Function/Lambda (whose cached hash is not refreshed)"""
-    return any(len(op["path"]) > 0 for op in case["ops"])
+    inside a Function/Lambda (whose cached hash is not refreshed) and the implementation is without the repair"""
+    return any(len(op["path"]) > 0 for op in case["ops"]) and not rehash_impl()
 
 
 def check_mutate(case, M):
@@ -866,8 +884,10 @@ def check_mutate(case, M):
         # model: the whole history so far folded over the object built from the description
         cur = _set_desc(cur, path, lambda cd: ["C", cd[1], hv, v])
         done.append([path, hv, val_wire(v), str(val_py(v))])
-        m = M.ask([Sym("c16.assign"), to_wire(d), done, to_wire(cur)])
-        m_struct, m_eq, m_eq2, m_hash_fresh, m_hash_stale = m[0], m[1] == "1", m[2] == "1", m[3] == "1", m[4] == "1"
+        m = M.ask([Sym("c16.assign"), int(rehash_impl()), to_wire(d), done, to_wire(cur)])
+        m_struct, m_eq, m_eq2, m_hash_fresh, m_hash_stale, m_valid = m[0], m[1] == "1", m[2] == "1", m[3] == "1", m[4] == "1", m[5] == "1"
+        if rehash_impl() and m_valid and m_eq and not m_hash_fresh:
+            raise RuntimeError("model: hash after assign differs from the fresh program's although the path is valid (contradicts C16_assign)")
         fresh = to_repo_raw(cur)
         enc = _safe(lambda: encode_repo(A))
         if enc != cur:
@@ -889,10 +909,10 @@ def check_mutate(case, M):
             if mutate_is_nested(case):
                 f["finding"] = "C16-F7"
             failures.append(f)
-        if not nested and eq is True and heq is True:
+        if (not nested or rehash_impl()) and eq is True and heq is True:
             if _safe(lambda: {fresh: 1}.get(A)) != 1:
                 failures.append({"kind": "oracle", "what": "assigned constant not found under the key of its fresh twin", "detail": str(A)})
-    tags = ["mutate", "mutate.nested" if mutate_is_nested(case) else "mutate.root"] + ["mutate." + op["op"] for op in case["ops"]]
+    tags = ["mutate", "mutate.nested" if any(len(op["path"]) > 0 for op in case["ops"]) else "mutate.root", "mutate.code-" + ("with" if rehash_impl() else "without") + "-the-repair-of-C16-F7"] + ["mutate." + op["op"] for op in case["ops"]]
     return {"key": "mutate:" + wire_text(d) + json.dumps(case["ops"]), "nontrivial": True, "tags": sorted(set(tags)), "failures": failures,
             "sample": {"kind": "mutate", "a": wire_text(d), "ops": case["ops"]}}
 
